@@ -11,6 +11,8 @@ package main
 
 import (
 	"fmt"
+	"go/types"
+	"os"
 	"regexp"
 	"sort"
 
@@ -91,6 +93,18 @@ func (e *Engine) rebind(fc *FuncContract, res *FuncResult, accept func(*FuncResu
 			free = append(free, n)
 		}
 	}
+	// types of the function's locals now
+	typeOf := map[string]string{}
+	for _, a := range fn.Locals {
+		typeOf[a.Comment] = types.TypeString(deref(a.Type()), nil)
+	}
+	for _, b := range fn.Blocks {
+		for _, ins := range b.Instrs {
+			if a, ok := ins.(*ssa.Alloc); ok && a.Heap {
+				typeOf[a.Comment] = types.TypeString(deref(a.Type()), nil)
+			}
+		}
+	}
 	budget := 24
 	var try func(alias map[string]string, missing string, depth int) *FuncResult
 	try = func(alias map[string]string, missing string, depth int) *FuncResult {
@@ -107,6 +121,9 @@ func (e *Engine) rebind(fc *FuncContract, res *FuncResult, accept func(*FuncResu
 			if used || budget <= 0 {
 				continue
 			}
+			if want, ok := fc.Locals[missing]; ok && typeOf[cand] != want {
+				continue // the contract pinned the local's type: only a local of that type can be the renamed one
+			}
 			budget--
 			a2 := map[string]string{}
 			for k, v := range alias {
@@ -114,6 +131,9 @@ func (e *Engine) rebind(fc *FuncContract, res *FuncResult, accept func(*FuncResu
 			}
 			a2[missing] = cand
 			r2 := e.verifyFuncAlias(fc, a2)
+			if os.Getenv("FVC_DEBUG_REBIND") != "" {
+				fmt.Fprintf(os.Stderr, "rebind %s: %v -> status=%s unknown=%q err=%s\n", fc.Key, a2, r2.Status, r2.UnknownIdent, truncate(r2.Error, 300))
+			}
 			switch {
 			case r2.Status == "ok":
 				if accept(r2) {
